@@ -1,4 +1,5 @@
 import OtelVerif.Model.C15
+import OtelVerif.Props.C08
 /-!
 # C15 — OTLP exporter → OTLP receiver preserves data and the meaning of failures
 
@@ -248,7 +249,7 @@ theorem C15_requested_delay_honoured (c d : Nat) (hc : c ≠ 0) (hd : d ≠ 0) (
 
 /-- Both transports agree on whether an outcome is retryable — except RESOURCE_EXHAUSTED without RetryInfo,
 which the spec's gRPC table makes permanent and its HTTP table (429) retryable. -/
-theorem C15_transports_agree (o : Outcome) (h : o.wf) (hx : o ≠ .status 8 none) :
+theorem C15_transports_agree_partial (o : Outcome) (h : o.wf) (hx : o ≠ .status 8 none) :
     (expGrpc (recvGrpc o)).isRetry = (expHttp (recvHttp o)).isRetry := by
   rw [C15_commutes_grpc o h, C15_commutes_http]
   cases o with
@@ -270,14 +271,35 @@ theorem C15_transports_agree (o : Outcome) (h : o.wf) (hx : o ≠ .status 8 none
       · simp [Verdict.isRetry]
       · by_cases hd : d = 0 <;> simp [hd, Verdict.isRetry]
 
+/-- "a failure means the same thing on both sides of the hop", read ACROSS transports: the same consumer outcome is retried by a
+gRPC sender iff it is retried by an HTTP sender -/
+def C15_transports_agree_full : Prop :=
+  ∀ o : Outcome, o.wf → (expGrpc (recvGrpc o)).isRetry = (expHttp (recvHttp o)).isRetry
+
+/-- … is false, and necessarily so: the OTLP specification's two tables disagree on this one outcome. OTLP/gRPC: RESOURCE_EXHAUSTED is
+retryable "only if the server signals that recovery is possible" (RetryInfo); OTLP/HTTP: 429 is in the list of retryable response
+codes without condition. The receiver maps RESOURCE_EXHAUSTED to 429 (its documented mapping), each sender follows its own table
+(`C15_exporter_matches_spec_grpc/http`), so a consumer's RESOURCE_EXHAUSTED without RetryInfo is permanent over gRPC and retried over
+HTTP. Spec-induced, not a deviation of the code: the property's clause holds per transport table (`C15_commutes_grpc/http`). -/
+theorem C15_transports_agree_full_fails : ¬ C15_transports_agree_full := by
+  intro h
+  have := h (.status 8 none) (by decide)
+  revert this
+  decide
+
 /-- the exception is real and goes the way the two spec tables say -/
 theorem C15_resource_exhausted_without_info :
     expGrpc (recvGrpc (.status 8 none)) = .permanent ∧ expHttp (recvHttp (.status 8 none)) = .retryable := by decide
 
 /-! ## the senders against any server -/
 
-/-- the HTTP exporter follows the spec tables for **every** status, `Retry-After` form and body -/
-theorem C15_expHttpX_matches_spec (r : HttpResp) : expHttpX r = specHttpX r := by
+theorem wrap64_id {x : Int} (h1 : -9223372036854775808 ≤ x) (h2 : x < 9223372036854775808) : wrap64 x = x := by
+  unfold wrap64
+  omega
+
+/-- (lemma, not a property theorem) the HTTP exporter equals its own normal form `specHttpX`, which carries the two
+implementation traits; the statement against the trait-free specification is `C15_expHttpX_matches_spec_partial` -/
+theorem expHttpX_normal_form (r : HttpResp) : expHttpX r = specHttpX r := by
   have hs := C15_gen_shape
   unfold expHttpX specHttpX
   rw [C15_http_table_total, hs.2.2.1, hs.2.2.2.1, hs.2.2.2.2.1]
@@ -300,11 +322,50 @@ theorem C15_expHttpX_matches_spec (r : HttpResp) : expHttpX r = specHttpX r := b
           simp [ht.1, ht.2]
         simp [this, ht]
 
+/-- **The HTTP exporter follows the specification** `specHttpXPure` (no implementation trait on the spec side) for every status,
+every `Retry-After` form and every body inside `inDomain`. Partial: outside the domain the code deviates, see the two witnesses. -/
+theorem C15_expHttpX_matches_spec_partial (r : HttpResp) (hd : r.inDomain = true) : expHttpX r = specHttpXPure r := by
+  rw [expHttpX_normal_form]
+  obtain ⟨st, ra, b⟩ := r
+  simp only [HttpResp.inDomain, Bool.and_eq_true, Bool.or_eq_true, Bool.not_eq_true', bne_iff_ne, ne_eq] at hd
+  obtain ⟨hb, hra⟩ := hd
+  unfold specHttpX specHttpXPure
+  by_cases h2 : 200 ≤ st ∧ st ≤ 299
+  · have : b ≠ .undecodable := by
+      rcases hb with hb | hb
+      · simp [h2.1, h2.2] at hb
+      · exact hb
+    simp [h2, this]
+  · simp only [h2, if_false]
+    cases ra with
+    | seconds s =>
+      simp only [Bool.and_eq_true, decide_eq_true_eq] at hra
+      have : wrap64 (s * nsPerSec) = s * nsPerSec := by
+        apply wrap64_id <;> simp only [nsPerSec] <;> omega
+      simp [this]
+    | _ => rfl
+
+/-- the unrestricted statement … -/
+def C15_expHttpX_matches_spec_full : Prop := ∀ r : HttpResp, expHttpX r = specHttpXPure r
+
+/-- … is false for the code as it is, witness 1: `Retry-After: 9223372037` on a 503 — `time.Duration(seconds)*time.Second`
+wraps to a negative delay instead of ≈ 292 years (observed on the real exporter: fake-server corpus case) -/
+theorem C15_expHttpX_matches_spec_full_fails : ¬ C15_expHttpX_matches_spec_full := by
+  intro h
+  have := h ⟨503, .seconds 9223372037, .empty⟩
+  revert this
+  decide
+
+/-- witness 2: a 200 whose body is declared protobuf/JSON but does not decode is returned as a plain error, i.e. the batch is
+RETRIED although the server acknowledged it (the spec: 200 = success) -/
+theorem C15_undecodable_2xx_is_retried :
+    expHttpX ⟨200, .absent, .undecodable⟩ = .retryable ∧ specHttpXPure ⟨200, .absent, .undecodable⟩ = .success := by decide
+
 /-- the classification never depends on the body outside 2xx, nor on `Retry-After` outside 429/503 -/
 theorem C15_expHttpX_irrelevant_inputs (st : Nat) (ra ra' : RetryAfter) (b b' : SuccessBody) :
     (¬ (200 ≤ st ∧ st ≤ 299) → expHttpX ⟨st, ra, b⟩ = expHttpX ⟨st, ra, b'⟩) ∧
     (st ≠ 429 → st ≠ 503 → expHttpX ⟨st, ra, b⟩ = expHttpX ⟨st, ra', b⟩) := by
-  rw [C15_expHttpX_matches_spec, C15_expHttpX_matches_spec, C15_expHttpX_matches_spec]
+  rw [expHttpX_normal_form, expHttpX_normal_form, expHttpX_normal_form]
   constructor
   · intro h; simp [specHttpX, h]
   · intro h1 h2; simp [specHttpX, h1, h2]
@@ -312,12 +373,9 @@ theorem C15_expHttpX_irrelevant_inputs (st : Nat) (ra ra' : RetryAfter) (b b' : 
 /-- partial success (or any decodable / ignorable 2xx body) is success -/
 theorem C15_partial_success_is_success (st : Nat) (ra : RetryAfter) (b : SuccessBody)
     (h : 200 ≤ st ∧ st ≤ 299) (hb : b ≠ .undecodable) : expHttpX ⟨st, ra, b⟩ = .success := by
-  rw [C15_expHttpX_matches_spec]
+  rw [expHttpX_normal_form]
   simp [specHttpX, h, hb]
 
-theorem wrap64_id {x : Int} (h1 : -9223372036854775808 ≤ x) (h2 : x < 9223372036854775808) : wrap64 x = x := by
-  unfold wrap64
-  omega
 
 /-- **Retry-After honoured, exactly** for every delay-seconds value that fits a `time.Duration`
 (|s| ≤ 9 223 372 036 s ≈ 292 years), and for every HTTP-date; (partial: beyond that range
@@ -332,13 +390,13 @@ theorem C15_retry_after_honoured_partial (st : Nat) (b : SuccessBody) (hst : st 
     | inr h => simp [h, specHttpRetryable]
   refine ⟨?_, ?_, ?_, ?_⟩
   · intro s h1 h2
-    rw [C15_expHttpX_matches_spec]
+    rw [expHttpX_normal_form]
     simp only [specHttpX, hns, if_false, hre, Bool.not_true, Bool.false_eq_true, hst, if_true, nsPerSec]
     rw [wrap64_id (by omega) (by omega)]
     simp
   all_goals
     intros
-    rw [C15_expHttpX_matches_spec]
+    rw [expHttpX_normal_form]
     simp [specHttpX, hns, hre, hst]
 
 /-- the full statement (every integer) is false for the code as it is: a huge delay-seconds value wraps -/
@@ -469,20 +527,46 @@ theorem C15_consumer_once (sink : Outcome) (auth : Option Bool) (ct : CType) (n 
 
 /-! ## payload -/
 
-/-- an encoding (protobuf / JSON marshalling of an export request) and a compression, each with its law -/
-structure Transport' (α β : Type) where
-  encode : α → β
-  decode : β → Option α
-  compress : β → β
-  decompress : β → Option β
-  enc_law : ∀ v, decode (encode v) = some v
-  comp_law : ∀ b, decompress (compress b) = some b
+/-- a compression as the transports use it (gzip/zstd/snappy/… over the marshalled bytes): C16's lawful-codec hypothesis, stated
+over C08's byte type -/
+structure Compression where
+  compress : Wire.Bytes → Wire.Bytes
+  decompress : Wire.Bytes → Option Wire.Bytes
+  law : ∀ b, decompress (compress b) = some b
 
-/-- **Payload** (partial: the marshalling law is C08's theorem and the compression law C16's hypothesis; here
-they are composed; the real hop is checked by exact byte comparison at the sink on every run). -/
-theorem C15_payload_partial {α β : Type} (t : Transport' α β) (v : α) :
-    (t.decompress (t.compress (t.encode v))).bind t.decode = some v := by
-  rw [t.comp_law, Option.bind_some, t.enc_law]
+/-- **Payload, protobuf transports (gRPC and HTTP/proto).** For every export-request root of the schema regenerated from /repo
+(`logsreq`, `metricsreq`, `tracesreq`, `profilesreq` — and every other root), every payload built through the public pdata API, and
+every lawful compression: what the receiver decodes after decompressing is exactly what the exporter marshalled. The marshalling
+half is C08's PROVED theorem (`C08_wrappers_otlp_api`: `Unmarshal` + `otlp.Migrate*` after `Marshal`), not a hypothesis.
+Partial: the compression law is C16's hypothesis (sampled there); the HTTP/gRPC framing is exercised, not modelled. -/
+theorem C15_payload_pb_partial (comp : Compression) (T : C08.Txt) (hT : C08.TxtLaws T) (root : String) (m : Nat)
+    (hroot : (root, m) ∈ C08.otlp.roots) (v : C08.Val) (h : C08.ApiBuilt C08.otlp m v)
+    (hlen : (C08.encode C08.otlp m v).length < 2 ^ 63) :
+    (comp.decompress (comp.compress (C08.encode C08.otlp m v))).bind (C08.decodeRoot C08.otlp C08.otlpD root m) = some v := by
+  rw [comp.law, Option.bind_some]
+  exact (C08.C08_wrappers_otlp_api T hT root m hroot v h hlen).1
+
+/-- the JSON text layer (jsoniter writing/reading the document): a lawful pair, hypothesis -/
+structure JsonText where
+  write : C08.Json → Wire.Bytes
+  read : Wire.Bytes → Option C08.Json
+  law : ∀ j, read (write j) = some j
+
+/-- **Payload, HTTP/JSON.** The same through `MarshalJSON` / `UnmarshalJSON` of the request root: the receiver gets the payload
+with NaNs canonicalised (`normV`, C08). Partial: text layer and compression laws are hypotheses; float↔text is C08's `TxtLaws`. -/
+theorem C15_payload_json_partial (comp : Compression) (jt : JsonText) (T : C08.Txt) (hT : C08.TxtLaws T) (root : String) (m : Nat)
+    (hroot : (root, m) ∈ C08.otlp.roots) (v : C08.Val) (h : C08.ApiBuilt C08.otlp m v)
+    (hlen : (C08.encode C08.otlp m v).length < 2 ^ 63) :
+    ((comp.decompress (comp.compress (jt.write (C08.toJson C08.otlp T m v)))).bind jt.read).bind
+        (C08.fromJsonRoot C08.otlp T C08.otlpD root m)
+      = some (C08.normV C08.otlp (.slots (C08.otlp.slots m)) v) := by
+  rw [comp.law, Option.bind_some, jt.law, Option.bind_some]
+  exact (C08.C08_wrappers_otlp_api T hT root m hroot v h hlen).2
+
+/-- non-vacuity: the four request roots exist in the regenerated schema, and a lawful compression exists -/
+example : ("logsreq", 1) ∈ C08.otlp.roots ∧ ("metricsreq", 4) ∈ C08.otlp.roots ∧ ("tracesreq", 10) ∈ C08.otlp.roots ∧
+    ("profilesreq", 7) ∈ C08.otlp.roots := by decide
+example : Compression := ⟨id, some, fun _ => rfl⟩
 
 /-! ## the search oracle -/
 
